@@ -15,7 +15,8 @@ PRELUDE = """From Coq Require Import List String.
 From DDS Require Import Base.Bytes L5_Stores.Codec.
 Import ListNotations.
 """
-VALUES = [["str", ""], ["str", "plain"], ["str", "héllo ✓ 😀"], ["str", "x" * 200000], ["bytes", ""], ["bytes", "00ff10"], ["bytes", "ab" * 70000],
+VALUES = [["str", ""], ["str", "plain"], ["str", "héllo ✓ 😀"], ["str", "x" * 200000],
+          ["str", "id,name\r\n1,a\r\n2,b\rc\n"], ["str", "\ufeffbom \x00 nul \x1a sub \u2028 ls \x85 nel\n\n"], ["str", "\n"], ["bytes", "0d0a1a000d"], ["bytes", ""], ["bytes", "00ff10"], ["bytes", "ab" * 70000],
           ["bytearray", "0102"], ["none"], ["object"], ["int", 5], ["user", 3], ["frame"]]
 EXPECTED_REF = {"str": "local.string", "bytes": "local.bytes", "bytearray": "local.bytes", "none": "local.pickle", "object": "local.pickle",
                 "int": "local.pickle", "user": "local.pickle", "frame": "local.pandas"}
@@ -64,7 +65,7 @@ def run_case(case):
 
 def run(rep, tier, seed, proof_ok):
     rng = random.Random(seed)
-    rep.rule = ("values of every storable type (str: empty / ascii / non-ASCII incl. astral / 200 kB; bytes: empty / binary / 140 kB; bytearray; "
+    rep.rule = ("values of every storable type (str: empty / ascii / non-ASCII incl. astral / 200 kB / CR, CRLF and other line separators, NUL, BOM; bytes: empty / binary / 140 kB; bytearray; "
                 "None; picklable object; int; instance of a user class; pandas frame) stored in the local store x sequences of codec "
                 "registrations (file codecs and codecs for str, bytes, object, NoneType, the user class, and a second codec reusing the "
                 "reference 'local.string') before the writes, between write and read, and in a second process in another order; "
@@ -81,6 +82,7 @@ def run(rep, tier, seed, proof_ok):
         second = list(regs_in_force)
         rng.shuffle(second)
         cases.append({"pre": pre, "mid": mid, "values": vals, "second": second})
+    cases.insert(0, {"pre": [], "mid": [REGS[0]], "values": list(VALUES), "second": [REGS[0]]})     # every value, always
     with cf.ThreadPoolExecutor(max_workers=C.NPROC) as ex:
         res = list(ex.map(run_case, cases))
     # model: which reference each write selects, after the pre registrations
